@@ -397,3 +397,157 @@ func r20ResultKeysAreRequestedIDs(c *core.Ctx) {
 	c.Check(R, "requested-levels-are-map-keys/"+sp.Name, sp.Decl.Pos(), okLv, "levels = keys of tileMatrixIDsByLevels(tms, tmIDs)", "the levels handed to addPointsAndSnap are not exactly the keys of the level->id map")
 	c.Floor(R, 3)
 }
+
+func init() { reg("R18b", r18bNoSharedStoragePerLevel) }
+
+// natural loops of a function: header -> set of blocks
+func naturalLoops(fn *ssa.Function) map[*ssa.BasicBlock]map[*ssa.BasicBlock]bool {
+	loops := map[*ssa.BasicBlock]map[*ssa.BasicBlock]bool{}
+	for _, h := range fn.Blocks {
+		for _, p := range h.Preds {
+			if !h.Dominates(p) {
+				continue
+			}
+			set := loops[h]
+			if set == nil {
+				set = map[*ssa.BasicBlock]bool{h: true}
+				loops[h] = set
+			}
+			work := []*ssa.BasicBlock{p}
+			for len(work) > 0 {
+				b := work[len(work)-1]
+				work = work[:len(work)-1]
+				if set[b] {
+					continue
+				}
+				set[b] = true
+				work = append(work, b.Preds...)
+			}
+		}
+	}
+	return loops
+}
+
+// R18b: values stored per level do not share backing storage with another
+// level: what is stored under a level key inside a loop over levels is
+// allocated inside that loop iteration (or is the level's own slot / a call
+// result), never a window into a buffer that outlives the iteration.
+func r18bNoSharedStoragePerLevel(c *core.Ctx) {
+	const R = "R18b"
+	root := c.Anchor(R, "snap.SnapPolygon")
+	if root == nil {
+		return
+	}
+	reach := core.ReachableNoStdlibTransit(c.P.VTA(), root.SSA)
+	ea := newEffAnalysis(c.P)
+	n := 0
+	for _, f := range sortedFuncs(c.P) {
+		sp := core.ShortPkg(f.Pkg.PkgPath)
+		if (sp != "snap" && sp != "pointindex") || f.SSA == nil {
+			continue
+		}
+		if _, ok := reach[f.SSA]; !ok {
+			continue
+		}
+		loops := naturalLoops(f.SSA)
+		for _, b := range f.SSA.Blocks {
+			for _, in := range b.Instrs {
+				mu, ok := in.(*ssa.MapUpdate)
+				if !ok || !isLevelKeyed(mu.Map.Type()) || !pointerLike(mu.Value.Type()) {
+					continue
+				}
+				// innermost loop containing the update
+				var loop map[*ssa.BasicBlock]bool
+				for _, set := range loops {
+					if set[b] && (loop == nil || len(set) < len(loop)) {
+						loop = set
+					}
+				}
+				if loop == nil {
+					continue
+				}
+				n++
+				construct := fmt.Sprintf("per-level-value-owns-its-storage/%s/%s", f.Name, valueLabel(mu.Map))
+				bad := ""
+				seen := map[ssa.Value]bool{}
+				var walk func(v ssa.Value, depth int)
+				walk = func(v ssa.Value, depth int) {
+					if v == nil || seen[v] || depth > 12 {
+						return
+					}
+					seen[v] = true
+					inLoop := func(x ssa.Instruction) bool { return loop[x.Block()] }
+					switch x := v.(type) {
+					case *ssa.Const:
+					case *ssa.MakeSlice:
+						if !inLoop(x) {
+							bad += fmt.Sprintf("backed by a buffer allocated outside the per-level loop (%s @%s); ", x.String(), c.P.Pos(x.Pos()))
+						}
+					case *ssa.Alloc:
+						if !inLoop(x) && x.Heap {
+							bad += fmt.Sprintf("backed by memory allocated outside the per-level loop (%s @%s); ", x.String(), c.P.Pos(x.Pos()))
+						}
+					case *ssa.MakeMap:
+						if !inLoop(x) {
+							bad += fmt.Sprintf("a map created outside the per-level loop is stored under several levels (%s); ", x.String())
+						}
+					case *ssa.Parameter, *ssa.FreeVar, *ssa.Global:
+						bad += fmt.Sprintf("the same caller-provided value %s is stored under several levels; ", x.Name())
+					case *ssa.Slice:
+						walk(x.X, depth+1)
+					case *ssa.Phi:
+						for _, e := range x.Edges {
+							walk(e, depth+1)
+						}
+					case *ssa.ChangeType:
+						walk(x.X, depth+1)
+					case *ssa.Convert:
+						walk(x.X, depth+1)
+					case *ssa.MakeInterface:
+						walk(x.X, depth+1)
+					case *ssa.Extract:
+						walk(x.Tuple, depth+1)
+					case *ssa.Lookup:
+						// the level's own slot (same key) or a per-level value of another level-keyed map under the same key
+						if x.Index != mu.Key {
+							walk(x.X, depth+1)
+						}
+					case *ssa.UnOp:
+						walk(x.X, depth+1)
+					case *ssa.IndexAddr:
+						walk(x.X, depth+1)
+					case *ssa.FieldAddr:
+						walk(x.X, depth+1)
+					case *ssa.Next, *ssa.Range:
+					case *ssa.Call:
+						if bi, ok := x.Call.Value.(*ssa.Builtin); ok {
+							if bi.Name() == "append" {
+								walk(x.Call.Args[0], depth+1)
+							}
+							return
+						}
+						fresh := true
+						for _, cal := range ea.idx.CalleesAt(x) {
+							if !analysable(cal) || !ea.summary(cal).returnsFresh {
+								fresh = false
+							}
+						}
+						if fresh {
+							return
+						}
+						for _, a := range x.Call.Args {
+							if pointerLike(a.Type()) {
+								walk(a, depth+1)
+							}
+						}
+					}
+				}
+				walk(mu.Value, 0)
+				c.Check(R, construct, mu.Pos(), bad == "", "the value stored under the level key is allocated in this iteration, is a call result, or is the level's own slot",
+					"values stored under different levels share storage: "+bad+"an append for one level can overwrite another level's points, so a tile matrix's result depends on which others are requested")
+			}
+		}
+	}
+	c.Note(R, "%d stores into level-keyed maps inside loops inspected", n)
+	c.Floor(R, 8)
+}
